@@ -394,14 +394,55 @@ fn control_token(d: &HeaderDetails) -> String {
     }
 }
 
+/// does the library's own parser accept a transmitted fragment as a response, consuming every
+/// object header?  (C12: every transmitted fragment parses cleanly)
+fn tx_verdict(bytes: &[u8]) -> &'static str {
+    match ParsedFragment::parse(ParseOptions::get_static(), bytes) {
+        Err(_) => "header-error",
+        Ok(f) => match f.to_response() {
+            Err(_) => "not-a-response",
+            Ok(r) => match r.objects {
+                Err(_) => "object-error",
+                Ok(headers) => {
+                    let mut n = 0usize;
+                    for _h in headers.iter() {
+                        n += 1;
+                    }
+                    std::hint::black_box(n);
+                    "ok"
+                }
+            },
+        },
+    }
+}
+
 fn flush(obs: &mut Vec<String>) {
     for l in vt::drain() {
+        let verdict = {
+            let t: Vec<&str> = l.split_whitespace().collect();
+            if t.len() == 4 && t[1] == "tx" {
+                Some(format!("{} > txparse {}", t[0], tx_verdict(&unhex(t[3]))))
+            } else {
+                None
+            }
+        };
         obs.push(l);
+        if let Some(v) = verdict {
+            obs.push(v);
+        }
+    }
+}
+
+async fn drain_ready() {
+    // let every task that became ready at this instant run before the trace is flushed
+    for _ in 0..8 {
+        tokio::task::yield_now().await;
     }
 }
 
 async fn settle() {
     tokio::time::sleep(Duration::from_millis(1)).await;
+    drain_ready().await;
 }
 
 pub(crate) async fn run_outstation(script: &Script, obs: &mut Vec<String>) {
@@ -504,6 +545,7 @@ pub(crate) async fn run_outstation(script: &Script, obs: &mut Vec<String>) {
             }
             "sleep" => {
                 tokio::time::sleep(Duration::from_millis(op[1].parse::<u64>().unwrap())).await;
+                drain_ready().await;
             }
             "add" => {
                 let index = op[2].parse::<u16>().unwrap();
